@@ -84,7 +84,9 @@ Definition changes_of (t : table) (cursor : N) : list change :=
   fold_right insert_by_rev []
     (filter (fun c => cursor <? c_rev c) (map (fun kv => slot_change (snd kv)) (t_slots t))).
 
-Definition with_status (o : obj) (k : skind) (id : N) : obj := mkObj (o_pk o) (o_ver o) k id.
+Definition with_status (o : obj) (k : skind) (id : N) : obj := mkObj (o_pk o) (o_ver o) k id (o_aux o).
+(* a write of another writer (a second reconciler's status): everything of ours is kept *)
+Definition bump_aux (o : obj) : obj := mkObj (o_pk o) (o_ver o) (o_kind o) (o_sid o) (o_aux o + 1).
 
 (* Status.IsPendingOrRefreshing *)
 Definition is_pending (o : obj) : bool :=
@@ -114,17 +116,37 @@ Definition fallback_ok (efb : bool) (cur : obj) (r : opres) : bool :=
 (* one iteration of the loop of incremental.go commitStatus.
    fixed = true: the code as it is (origRev carried through);
    fixed = false: the variant before fix cd98c3d (retries.Add(..., newRevision, result.rev, ...)).
-   efb: see fallback_ok. *)
+   efb: see fallback_ok.
+   The retry is queued with result.original: the reconciled object after a successful CompareAndSwap, the
+   object just inserted (current with the new status) after the fallback (fix 1583841). *)
 Definition commit_one (fixed efb : bool) (now : N) (tq : table * retries) (r : opres) : table * retries :=
   let (t, q) := tq in
   let (t1, id) := t_fresh_id t in                                (* StatusDone()/StatusError(err) *)
+  let st := if r_ok r then Done else Error in
+  let '(t2, wrote, orig) :=
+    match t_cas t1 (r_rev r) (with_status (r_obj r) st id) with
+    | (t', CasOk) => (t', true, r_obj r)
+    | (t', CasNotFound) => (t', false, r_obj r)
+    | (t', CasMismatch cur _) =>
+      (* the object had changed: apply the result to the CURRENT object iff only the status changed *)
+      if fallback_ok efb cur r then (t_insert t' (with_status cur st id), true, with_status cur st id)
+      else (t', false, r_obj r)
+    end in
+  if negb (r_ok r) && wrote
+  then (t2, r_add q orig (t_rev t2) (if fixed then r_orig r else r_rev r) false now)
+  else (t2, q).
+
+(* the variant before fix 1583841: after the fallback the retry is queued with the STALE reconciled object
+   (kept for the refutation stale_retry_clobbers_refuted) *)
+Definition commit_one_stale (fixed efb : bool) (now : N) (tq : table * retries) (r : opres) : table * retries :=
+  let (t, q) := tq in
+  let (t1, id) := t_fresh_id t in
   let st := if r_ok r then Done else Error in
   let '(t2, wrote) :=
     match t_cas t1 (r_rev r) (with_status (r_obj r) st id) with
     | (t', CasOk) => (t', true)
     | (t', CasNotFound) => (t', false)
     | (t', CasMismatch cur _) =>
-      (* the object had changed: apply the result to the CURRENT object iff only the status changed *)
       if fallback_ok efb cur r then (t_insert t' (with_status cur st id), true) else (t', false)
     end in
   if negb (r_ok r) && wrote
@@ -139,9 +161,13 @@ Definition commit_status := commit_status_gen true true.
 Definition commit_status_old := commit_status_gen false false.
 (* variant before fix 8844901, kept for the refutation convergence_refuted_by_foreign_status_write *)
 Definition commit_status_nofallback_old := commit_status_gen true false.
+(* variant before fix 1583841 *)
+Definition commit_status_stale (now : N) (t : table) (q : retries) (res : list opres) : table * retries :=
+  fold_left (commit_one_stale true true now) res (t, q).
 
 (* ------------------------------------------------------------------ scripted environment (harness) *)
 (* user write kinds: 0 put | 1 del | 2 reins | 3 stat (guarded) | 4 statx | 5 ref | 6 pend.
+   stat/statx are the writes of ANOTHER writer: they change o_aux only (bump_aux).
    The object's status may be a plain reconciler.Status or a reconciler.StatusSet entry read through
    StatusSet.Get(name): both are a (kind, id) pair; NewStatusSet()/Pending() give a fresh id. *)
 Record call := mkCall {
@@ -174,11 +200,13 @@ Definition add_urev (e : env) : env :=
 Definition bump_ver (e : env) : env :=
   mkEnv (e_tab e) (e_now e) (e_attempts e) (e_faults e) (e_hooks e) (e_foff e) (e_ver e + 1) (e_urevs e) (e_calls e) (e_target e).
 
-(* harness doWrite("put"): insert/update with a new payload version and StatusPending() *)
+(* harness doWrite("put"): insert/update with a new payload version and StatusPending(); the other
+   writers' data of an existing object is kept (o.Other = old.Other), a new object starts at 0 *)
 Definition w_put (e : env) (k : N) : env :=
+  let aux := match t_live (e_tab e) k with Some (o, _) => o_aux o | None => 0 end in
   let e := bump_ver e in
   let (t, id) := t_fresh_id (e_tab e) in
-  add_urev (set_tab e (t_insert t (mkObj k (e_ver e) Pending id))).
+  add_urev (set_tab e (t_insert t (mkObj k (e_ver e) Pending id aux))).
 Definition w_del (e : env) (k : N) : env :=
   match t_live (e_tab e) k with
   | Some _ => add_urev (set_tab e (t_delete (e_tab e) k))
@@ -188,7 +216,7 @@ Definition w_stat (guarded : bool) (e : env) (k : N) : env :=
   match t_live (e_tab e) k with
   | Some (o, _) =>
     if guarded && match o_kind o with Error => true | _ => false end then e
-    else add_urev (set_tab e (t_insert (e_tab e) o))
+    else add_urev (set_tab e (t_insert (e_tab e) (bump_aux o)))
   | None => e
   end.
 Definition w_ref (e : env) (k : N) : env :=
@@ -484,3 +512,73 @@ Definition mark_init (e : env) : env :=
 Definition kind_code (k : skind) : N := match k with Pending => 0 | Refreshing => 1 | Done => 2 | Error => 3 end.
 Definition live_objs (t : table) : list (N * N * N) :=
   flat_map (fun kv => match snd kv with Live o _ => [(o_pk o, o_ver o, kind_code (o_kind o))] | Dead _ _ => [] end) (t_slots t).
+
+(* ------------------------------------------------------------------ variants of commitStatus that are not instances of commit_status_gen *)
+(* round / settle / advance with the status commit as a parameter:
+   round_with (commit_status_gen fixed efb) = round_gen fixed efb etc. by reflexivity (Refuted.v) *)
+Definition round_with (commit : N -> table -> retries -> list opres -> table * retries) (cf : cfg) (e : env) (s : rstate) : env * rstate :=
+  (* triggers *)
+  let initfire := negb (k_tinit s) && negb (t_pendinit (e_tab e)) in
+  let tick := negb (cf_prunei cf =? 0) && (k_tick s <=? e_now e) in
+  let prune := (initfire && negb (cf_prunei cf =? 0)) || tick in
+  let tinit := k_tinit s || initfire in
+  let ext := k_ext s || k_exttok s in
+  let nexttick := if tick then k_tick s + cf_prunei cf else k_tick s in
+  (* txn = r.DB.ReadTxn(); changes = changeIterator.Next(txn) *)
+  let snap := e_tab e in
+  let chs := changes_of snap (k_cursor s) in
+  let q := k_ret s in
+  let '(e, q, res, nrec, lastrev) :=
+    if cf_batch cf then
+      let '(q, dels, upds, nrec, lastrev) := batch_collect (cf_rs cf) chs q [] [] 0 0 in
+      let (e, q) := batch_deletes snap dels e q in
+      let (e, l) := batch_update_calls snap upds e [] in
+      let (q, res) := batch_results l q [] in
+      (e, q, res, nrec, lastrev)
+    else single (cf_rs cf) snap chs e q [] 0 0 in
+  let cursor := if lastrev =? 0 then k_cursor s else lastrev in
+  (* newErrors := incr.commitStatus(); clear(incr.results) *)
+  let (t, q) := commit (e_now e) (e_tab e) q res in
+  let e := set_tab e t in
+  (* retryLowWatermark = incr.processRetries(ctx, txn) *)
+  let '(e, q, res2, _) := process_retries (N.to_nat (cf_rs cf)) (cf_rs cf) snap e q [] nrec in
+  let lwm := r_low_watermark q in
+  (* newErrors += incr.commitStatus() *)
+  let (t, q) := commit (e_now e) (e_tab e) q res2 in
+  let e := set_tab e t in
+  let s' := progress_update (mkR cursor q (k_prev s) (k_plwm s) tinit ext false nexttick) lastrev lwm in
+  (* if tableInitialized && (prune || externalPrune) { r.prune(ctx, txn); externalPrune = false } *)
+  if tinit && (prune || ext) then
+    let e := mkEnv (e_tab e) (e_now e) (e_attempts e) (e_faults e) (e_hooks e) (e_foff e) (e_ver e) (e_urevs e)
+                   (e_calls e ++ [mkCall (e_now e) 4 0 0 0 false false true (live_contents snap)]) (e_target e) in
+    (e, mkR (k_cursor s') (k_ret s') (k_prev s') (k_plwm s') (k_tinit s') false false (k_tick s'))
+  else (e, s').
+
+
+Fixpoint settle_with (commit : N -> table -> retries -> list opres -> table * retries) (fuel : nat) (cf : cfg) (e : env) (s : rstate) : env * rstate :=
+  match fuel with
+  | O => (e, s)
+  | S f => if trigger_ready cf e s then let (e, s) := round_with commit cf e s in settle_with commit f cf e s else (e, s)
+  end.
+
+Fixpoint advance_with (commit : N -> table -> retries -> list opres -> table * retries) (fuel : nat) (sfuel : nat) (cf : cfg) (e : env) (s : rstate) (until : N) : env * rstate :=
+  match fuel with
+  | O => (set_now e until, s)
+  | S f =>
+    match next_event cf e s until with
+    | None => (set_now e until, s)
+    | Some t =>
+      let e := set_now e (N.max t (e_now e)) in
+      let (e, s) := settle_with commit sfuel cf e s in
+      advance_with commit f sfuel cf e s until
+    end
+  end.
+
+(* the reconciler before fix 1583841 *)
+Definition round_stale := round_with commit_status_stale.
+Definition settle_stale := settle_with commit_status_stale.
+Definition advance_stale := advance_with commit_status_stale.
+
+(* live objects with the other writers' data: (key, payload version, status kind, aux) *)
+Definition live_objs_aux (t : table) : list (N * N * N * N) :=
+  flat_map (fun kv => match snd kv with Live o _ => [(o_pk o, o_ver o, kind_code (o_kind o), o_aux o)] | Dead _ _ => [] end) (t_slots t).
